@@ -1,10 +1,11 @@
 #!/venv/bin/python
 """Dev helper: after a `fix:` commit in /repo, record it: known_findings.json (fixed), reverse patch for the self-test, refresh the pristine export.
-usage: record_fix.py <PROP> <rule-id> <construct> <what failed on the pinned tree>"""
+usage: record_fix.py <PROP> <rule-id> <construct> <what failed on the pinned tree> [commit]"""
 import json, subprocess, sys, shutil, os
 prop, rule, construct, what = sys.argv[1:5]
-c = subprocess.run(["git", "-C", "/repo", "rev-parse", "--short=8", "HEAD"], capture_output=True, text=True).stdout.strip()
-msg = subprocess.run(["git", "-C", "/repo", "log", "-1", "--format=%s"], capture_output=True, text=True).stdout.strip()
+rev = sys.argv[5] if len(sys.argv) > 5 else "HEAD"  # optional: the fix commit (default: the last one)
+c = subprocess.run(["git", "-C", "/repo", "rev-parse", "--short=8", rev], capture_output=True, text=True).stdout.strip()
+msg = subprocess.run(["git", "-C", "/repo", "log", "-1", "--format=%s", rev], capture_output=True, text=True).stdout.strip()
 assert msg.startswith("fix:"), msg
 k = json.load(open("/verif/known_findings.json"))
 k["fixed"].append({"property": prop, "rule": rule, "construct": construct, "commit": c, "line": f"fixed: property={prop} {c} {what}"})
